@@ -82,7 +82,7 @@ def _basis(ns, k, seed):
 
 
 @model('linear')
-def _m_linear(k, seed, affine, offset=1.0):
+def _m_linear(k, seed, affine, offset=1.0, scales=None):
     """Poisson model linear (affine) in its k parameters: M(p) = [offset*B0 +] sum p_j B_j."""
     import dadi
 
@@ -90,7 +90,7 @@ def _m_linear(k, seed, affine, offset=1.0):
         B = _basis(tuple(ns), k + 1, seed)
         val = B[0] * (float(offset) if affine else 0.0)
         for j in range(k):
-            val = val + params[j] * B[j + 1]
+            val = val + params[j] * B[j + 1] * (1.0 if not scales else float(scales[j]))
         val = val * (1.0 + 0.3 / float(np.sum(pts)))      # depends on the grid setting, as real models do
         return dadi.Spectrum(val)
     f.__name__ = 'linear_k%d_s%d_%s' % (k, seed, 'aff' if affine else 'lin')
